@@ -23,6 +23,7 @@ MIN_OBS = {'frames_fed': {'quick': 100000, 'thorough': 2000000}, 'exceptions_con
            'sessions_opened': {'quick': 2500, 'thorough': 50000}, 'followups_ok': {'quick': 8000, 'thorough': 150000},
            'probe_timers_ok': {'quick': 8000, 'thorough': 150000}, 'reactive_frames': {'quick': 3000, 'thorough': 60000},
            'zero_latency_cases': {'quick': 1500, 'thorough': 30000}}
+MIN_OBS_UNLESS = {'sessions_opened': 'tables_not_observed'}      # private table names may be gone after a refactor
 
 SELF, PEER, THIRD = 0x10, 0x20, 0x30
 
@@ -201,7 +202,7 @@ def run_case(case):
     # longest time-out of their own last activity, which can be up to 3.5 s after the last hostile frame
     W.run(t_quiet + 3.7)
 
-    obs = dict(reactive_frames=H.reactions, zero_latency_cases=1 if zero else 0, frames_fed=fed[0], exceptions_contained=sum(A.notify_exc.values()) + sum(B.notify_exc.values()), sessions_opened=sessions_opened,
+    obs = dict(tables_not_observed=sum(1 for nd in (A, B) if all(v is None for k, v in nd.tables().items() if k != '_multi_pg_snd_buffer')), reactive_frames=H.reactions, zero_latency_cases=1 if zero else 0, frames_fed=fed[0], exceptions_contained=sum(A.notify_exc.values()) + sum(B.notify_exc.values()), sessions_opened=sessions_opened,
                followups_ok=0, probe_timers_ok=0, own_sends=len(own), own_send_raised=sum(1 for o in own if o[3]))
     # ---- oracle ---------------------------------------------------------------------------
     M.m_live(viol, W, layer)
